@@ -116,6 +116,18 @@ def all_two_var_networks():
         for t1 in itertools.product([False, True], repeat=4):
             yield "\n".join([f"x0, {dnf_of_table(nm, dict(zip(vals, t0)))}", f"x1, {dnf_of_table(nm, dict(zip(vals, t1)))}"])
 
+def free_inputs_variant(rng, rules):
+    """rewrite some identity inputs 'x, x' as free inputs (no rule at all), keeping them if used elsewhere"""
+    lines = rules.splitlines()
+    out = []
+    for l in lines:
+        v, e = [t.strip() for t in l.split(",", 1)]
+        used = any(v in l2.split(",", 1)[1] for l2 in lines if not l2.startswith(v + ","))
+        if e == v and used and rng.random() < 0.8:
+            continue
+        out.append(l)
+    return "\n".join(out) if out else rules
+
 def gen_network(rng, nmin=2, nmax=6):
     r = rng.random()
     if r < 0.55:
@@ -178,7 +190,7 @@ class Model:
         if p.returncode != 0:
             raise RuntimeError("bbmodel failed: " + p.stderr[-2000:])
         out = p.stdout.splitlines()
-        assert len(out) == self.n_header + len(self.cmds), (len(out), len(self.cmds), p.stderr[-500:])
+        assert len(out) == self.n_header + len(self.cmds), (len(out), len(self.cmds), p.stderr[-500:], out[-3:])
         return out[self.n_header:]
 
 def parse_spaces(s):
